@@ -3,6 +3,10 @@
 import json, os, sys
 root = os.path.dirname(os.path.dirname(os.path.abspath(__file__)))
 table = json.load(open(os.path.join(root, "tools", "checks.json")))
+import glob
+for f in glob.glob(os.path.join(root, "checks", "c[0-9]*", "manifest.json")):
+    pid = os.path.basename(os.path.dirname(f)).upper()
+    table[pid] = json.load(open(f))
 props = [json.loads(l) for l in open(os.path.join(root, "properties.jsonl"))]
 checks, na = [], []
 for p in props:
